@@ -202,10 +202,165 @@ fn psd_case(g: &mut Gen, S: &Mat, Z: &Mat, X: &Mat, Y: &Mat, tag: &str) {
     g.count(&format!("psd/n{}/{}", n, tag));
 }
 
+// ------------------------------------------------------------------ operation sequences on ONE cone object
+/// what a cone exposes after some history: the operator outputs on x (alpha = 1, beta = 0) and the KKT block
+fn observe<C: Cone<f64> + SymmetricCone<f64>>(c: &mut C, x: &[f64], hslen: usize) -> (Vec<f64>, Vec<f64>, Vec<f64>, Vec<f64>) {
+    let n = x.len();
+    let mut wx = vec![0.0; n];
+    vh::mul_W(c, false, &mut wx, x, 1.0, 0.0);
+    let mut winvx = vec![0.0; n];
+    vh::mul_Winv(c, false, &mut winvx, x, 1.0, 0.0);
+    let mut hsx = vec![0.0; n];
+    let mut work = vec![0.0; n];
+    c.mul_Hs(&mut hsx, x, &mut work);
+    let mut hs = vec![0.0; hslen];
+    c.get_Hs(&mut hs);
+    (wx, winvx, hsx, hs)
+}
+fn cat(parts: &[&[f64]]) -> Vec<f64> { parts.iter().flat_map(|p| p.iter().cloned()).collect() }
+
+fn seq_nn(g: &mut Gen, s1: &[f64], z1: &[f64], s2: &[f64], z2: &[f64], x: &[f64]) {
+    let n = s1.len();
+    let input = json!({"cone": "nn", "seq": true, "s1": s1, "z1": z1, "s2": s2, "z2": z2, "x": x});
+    let r = guarded(|| {
+        // (a) update; identity reset
+        let mut c = vh::NonnegativeCone::<f64>::new(n);
+        c.update_scaling(s1, z1, 1.0, ScalingStrategy::PrimalDual);
+        c.set_identity_scaling();
+        let w = c.verif_w().to_vec();
+        let o = observe(&mut c, x, n);
+        // (b) update twice on one object vs once on a fresh object
+        let mut c1 = vh::NonnegativeCone::<f64>::new(n);
+        c1.update_scaling(s1, z1, 1.0, ScalingStrategy::PrimalDual);
+        c1.update_scaling(s2, z2, 1.0, ScalingStrategy::PrimalDual);
+        let o1 = observe(&mut c1, x, n);
+        let st1 = cat(&[c1.verif_w(), c1.verif_lambda(), &o1.0, &o1.1, &o1.2, &o1.3]);
+        let mut c2 = vh::NonnegativeCone::<f64>::new(n);
+        c2.update_scaling(s2, z2, 1.0, ScalingStrategy::PrimalDual);
+        let o2 = observe(&mut c2, x, n);
+        let st2 = cat(&[c2.verif_w(), c2.verif_lambda(), &o2.0, &o2.1, &o2.2, &o2.3]);
+        (w, o, st1, st2)
+    });
+    let Some((w, o, st1, st2)) = r else { g.sink.case("nn_sequence", input, "1%N".into(), &["panic"]); return; };
+    if !cat(&[&w, &o.0, &o.1, &o.2, &o.3, &st1, &st2]).iter().all(|v| v.is_finite()) { g.sink.case("nn_sequence", input, "1%N".into(), &["nonfinite"]); return; }
+    let coq = format!("(maxl [c_nn_identity {w}; p_identity_ops (-45) {x} {wx} {wi} {hx}; p_hs_diag (-45) {hs} {x} {hx}; c_bitsame {a} {b}])",
+        w = cfllist(&w), x = cdylist(x), wx = cdylist(&o.0), wi = cdylist(&o.1), hx = cdylist(&o.2), hs = cdylist(&o.3), a = cfllist(&st1), b = cfllist(&st2));
+    g.sink.case("nn_sequence", input, coq, &["sequence"]);
+    g.count("sequence/nn");
+}
+
+fn seq_soc(g: &mut Gen, s1: &[f64], z1: &[f64], s2: &[f64], z2: &[f64], x: &[f64]) {
+    let n = s1.len();
+    let input = json!({"cone": "soc", "seq": true, "s1": s1, "z1": z1, "s2": s2, "z2": z2, "x": x});
+    let state = |c: &vh::SecondOrderCone<f64>| -> Vec<f64> {
+        let mut v = cat(&[&c.w, &c.λ, &[c.η]]);
+        if let Some(sd) = &c.sparse_data { v.extend(cat(&[&sd.u, &sd.v, &[sd.d]])); }
+        v
+    };
+    let r = guarded(|| {
+        let mut c = vh::SecondOrderCone::<f64>::new(n);
+        let sparse = c.is_sparse_expandable();
+        let hslen = if sparse { n } else { n * (n + 1) / 2 };
+        c.update_scaling(s1, z1, 1.0, ScalingStrategy::PrimalDual);
+        c.set_identity_scaling();
+        let (w, eta) = (c.w.clone(), c.η);
+        let (u, v, d) = match &c.sparse_data { Some(sd) => (sd.u.clone(), sd.v.clone(), sd.d), None => (vec![], vec![], 0.0) };
+        let o = observe(&mut c, x, hslen);
+        let mut c1 = vh::SecondOrderCone::<f64>::new(n);
+        c1.update_scaling(s1, z1, 1.0, ScalingStrategy::PrimalDual);
+        c1.update_scaling(s2, z2, 1.0, ScalingStrategy::PrimalDual);
+        let o1 = observe(&mut c1, x, hslen);
+        let st1 = cat(&[&state(&c1), &o1.0, &o1.1, &o1.2, &o1.3]);
+        let mut c2 = vh::SecondOrderCone::<f64>::new(n);
+        c2.update_scaling(s2, z2, 1.0, ScalingStrategy::PrimalDual);
+        let o2 = observe(&mut c2, x, hslen);
+        let st2 = cat(&[&state(&c2), &o2.0, &o2.1, &o2.2, &o2.3]);
+        (sparse, w, eta, u, v, d, o, st1, st2)
+    });
+    let Some((sparse, w, eta, u, v, d, o, st1, st2)) = r else { g.sink.case("soc_sequence", input, "1%N".into(), &["panic"]); return; };
+    if !cat(&[&w, &[eta, d], &u, &v, &o.0, &o.1, &o.2, &o.3, &st1, &st2]).iter().all(|t| t.is_finite()) { g.sink.case("soc_sequence", input, "1%N".into(), &["nonfinite"]); return; }
+    let hs_chk = if sparse {
+        format!("p_hs_sparse (-45) {} {} {} {} {} {}", cdylist(&o.3), cdylist(&u), cdylist(&v), cdy(eta), cdylist(x), cdylist(&o.2))
+    } else {
+        format!("p_hs_dense (-45) {} {} {}", cdylist(&o.3), cdylist(x), cdylist(&o.2))
+    };
+    let coq = format!("(maxl [c_soc_identity {n} {sp} {w} {eta} {u} {v} {d}; p_identity_ops (-45) {x} {wx} {wi} {hx}; {hs}; c_bitsame {a} {b}])",
+        n = n, sp = sparse, w = cfllist(&w), eta = cfl(eta), u = cfllist(&u), v = cfllist(&v), d = cfl(d),
+        x = cdylist(x), wx = cdylist(&o.0), wi = cdylist(&o.1), hx = cdylist(&o.2), hs = hs_chk, a = cfllist(&st1), b = cfllist(&st2));
+    g.sink.case("soc_sequence", input, coq, &["sequence"]);
+    g.count(&format!("sequence/soc/{}", if sparse { "sparse" } else { "dense" }));
+}
+
+fn seq_psd(g: &mut Gen, S1: &Mat, Z1: &Mat, S2: &Mat, Z2: &Mat, X: &Mat) {
+    let n = S1.len();
+    let (s1, z1, s2, z2, x) = (svec(S1), svec(Z1), svec(S2), svec(Z2), svec(X));
+    let nv = x.len();
+    let hslen = nv * (nv + 1) / 2;
+    let input = json!({"cone": "psd", "seq": true, "S1": S1, "Z1": Z1, "S2": S2, "Z2": Z2, "X": X});
+    let r = guarded(|| {
+        let mut c = vh::PSDTriangleCone::<f64>::new(n);
+        c.update_scaling(&s1, &z1, 1.0, ScalingStrategy::PrimalDual);
+        c.set_identity_scaling();
+        let (rr, ri) = (c.verif_R(), c.verif_Rinv());
+        let o = observe(&mut c, &x, hslen);
+        let mut c1 = vh::PSDTriangleCone::<f64>::new(n);
+        c1.update_scaling(&s1, &z1, 1.0, ScalingStrategy::PrimalDual);
+        c1.update_scaling(&s2, &z2, 1.0, ScalingStrategy::PrimalDual);
+        let o1 = observe(&mut c1, &x, hslen);
+        let st1 = cat(&[c1.verif_lambda(), &c1.verif_R(), &c1.verif_Rinv(), &o1.0, &o1.1, &o1.2, &o1.3]);
+        let mut c2 = vh::PSDTriangleCone::<f64>::new(n);
+        c2.update_scaling(&s2, &z2, 1.0, ScalingStrategy::PrimalDual);
+        let o2 = observe(&mut c2, &x, hslen);
+        let st2 = cat(&[c2.verif_lambda(), &c2.verif_R(), &c2.verif_Rinv(), &o2.0, &o2.1, &o2.2, &o2.3]);
+        (rr, ri, o, st1, st2)
+    });
+    let Some((rr, ri, o, st1, st2)) = r else { g.sink.case("psd_sequence", input, "1%N".into(), &["panic"]); return; };
+    if !cat(&[&rr, &ri, &o.0, &o.1, &o.2, &o.3, &st1, &st2]).iter().all(|t| t.is_finite()) { g.sink.case("psd_sequence", input, "1%N".into(), &["nonfinite"]); return; }
+    // R = R^-1 = I exactly after the reset
+    let mut eye = vec![0.0; n * n];
+    for k in 0..n { eye[k + n * k] = 1.0; }
+    let coq = format!("(maxl [c_bitsame {rr} {eye}; c_bitsame {ri} {eye}; p_identity_ops (-45) {x} {wx} {wi} {hx}; p_hs_dense (-45) {hs} {x} {hx}; c_bitsame {a} {b}])",
+        rr = cfllist(&rr), ri = cfllist(&ri), eye = cfllist(&eye), x = cdylist(&x), wx = cdylist(&o.0), wi = cdylist(&o.1), hx = cdylist(&o.2),
+        hs = cdylist(&o.3), a = cfllist(&st1), b = cfllist(&st2));
+    g.sink.case("psd_sequence", input, coq, &["sequence"]);
+    g.count("sequence/psd");
+}
+
+fn sequences(g: &mut Gen, reps: usize) {
+    for _ in 0..reps {
+        for &n in &[1usize, 3, 6] {
+            let (s1, z1): (Vec<f64>, Vec<f64>) = (0..n).map(|_| nn_pair(&mut g.rng)).unzip();
+            let (s2, z2): (Vec<f64>, Vec<f64>) = (0..n).map(|_| nn_pair(&mut g.rng)).unzip();
+            let x: Vec<f64> = (0..n).map(|_| (g.rng.unit() - 0.5) * 4.0).collect();
+            seq_nn(g, &s1, &z1, &s2, &z2, &x);
+        }
+        for &n in &[2usize, 3, 4, 5, 6, 9, 12] {
+            let d1 = *g.rng.pick(&[1.0, 1e-4]);
+            let s1 = soc_interior(&mut g.rng, n, d1, 1.0);
+            let z1 = soc_interior(&mut g.rng, n, d1, 10.0);
+            let s2 = soc_interior(&mut g.rng, n, 1.0, 0.1);
+            let z2 = soc_interior(&mut g.rng, n, 1.0, 1.0);
+            let x: Vec<f64> = (0..n).map(|_| (g.rng.unit() - 0.5) * 4.0 + 0.25).collect();
+            seq_soc(g, &s1, &z1, &s2, &z2, &x);
+        }
+        if blas_shim::AVAILABLE {
+            for n in 1..=4usize {
+                let S1 = psd_matrix(&mut g.rng, n, 0.3, 1.0);
+                let Z1 = psd_matrix(&mut g.rng, n, 0.3, 2.0);
+                let S2 = psd_matrix(&mut g.rng, n, 0.3, 0.5);
+                let Z2 = psd_matrix(&mut g.rng, n, 0.3, 1.0);
+                let X = sym_matrix(&mut g.rng, n, 2.0);
+                seq_psd(g, &S1, &Z1, &S2, &Z2, &X);
+            }
+        }
+    }
+}
+
 const AB: [(f64, f64); 4] = [(1.0, 0.0), (-1.0, 0.0), (2.0, 0.5), (0.5, -1.0)];
 
 fn generate(g: &mut Gen, thorough: bool) {
     let reps = if thorough { 8 } else { 2 };
+    sequences(g, reps);
     for _ in 0..reps {
         for n in 1..=12usize {
             for mode in 0..3 {
@@ -277,6 +432,14 @@ fn replay(g: &mut Gen, v: &Value) {
     let f = |k: &str| f64_vec(&inp[k]);
     let h = |k: &str| inp[k].as_f64().unwrap();
     let m = |k: &str| -> Mat { inp[k].as_array().unwrap().iter().map(|r| f64_vec(r)).collect() };
+    if inp.get("seq").is_some() {
+        match inp["cone"].as_str().unwrap_or("soc") {
+            "nn" => seq_nn(g, &f("s1"), &f("z1"), &f("s2"), &f("z2"), &f("x")),
+            "psd" => seq_psd(g, &m("S1"), &m("Z1"), &m("S2"), &m("Z2"), &m("X")),
+            _ => seq_soc(g, &f("s1"), &f("z1"), &f("s2"), &f("z2"), &f("x")),
+        }
+        return;
+    }
     match inp["cone"].as_str().unwrap_or("soc") {
         "psd" => psd_case(g, &m("S"), &m("Z"), &m("X"), &m("Y"), "replay"),
         "nn" => nn_case(g, &f("s"), &f("z"), &f("x"), &f("y"), h("a"), h("b"), h("sigmamu"), "replay"),
